@@ -81,7 +81,7 @@ enum PointKind {
     PK_COND_WAKE,
     PK_THREAD_CREATE, PK_THREAD_JOIN, PK_THREAD_DETACH, PK_THREAD_START, PK_THREAD_EXIT, PK_ONCE,
     PK_ATOMIC, PK_CLOCK, PK_SLEEP, PK_YIELD, PK_GATE_WAIT, PK_GATE_NOTIFY, PK_ACCESS, PK_HARNESS,
-    PK_FAULT, PK__COUNT
+    PK_FAULT, PK_CLOCK_READ, PK__COUNT
 };
 const char *point_kind_name(int k);
 
